@@ -26,7 +26,9 @@ import (
 	"github.com/siglens/siglens/pkg/querytracker"
 	"github.com/siglens/siglens/pkg/segment/memory/limit"
 	"github.com/siglens/siglens/pkg/segment/query"
+	sutils "github.com/siglens/siglens/pkg/segment/utils"
 	"github.com/siglens/siglens/pkg/segment/writer"
+	"github.com/siglens/siglens/pkg/segment/writer/metrics"
 	serverutils "github.com/siglens/siglens/pkg/server/utils"
 	vtable "github.com/siglens/siglens/pkg/virtualtable"
 	log "github.com/sirupsen/logrus"
@@ -68,6 +70,7 @@ type BootArgs struct {
 	Recover  bool     `json:"recover,omitempty"`
 	ExtraYml string   `json:"extraYaml,omitempty"`
 	Debug    bool     `json:"debug,omitempty"`
+	Tun      map[string]float64 `json:"tun,omitempty"` // package-level thresholds set before the stores are initialised
 	CrashLog string   `json:"crashLog,omitempty"` // record every mutating fs operation under <dir>/data into this file (crashfs)
 	RelPaths bool     `json:"relPaths,omitempty"` // configure dataPath relative to cwd (= dir) so that a copy of the directory is self-contained
 	RecoverB bool     `json:"recoverBoot,omitempty"` // booting on an existing directory: wait for / run the start-up recovery before answering
@@ -161,11 +164,28 @@ func boot(raw json.RawMessage) (interface{}, error) {
 		booted = true
 		return map[string]interface{}{"dir": a.Dir, "ingestPort": IngestPort, "queryPort": QueryPort}, nil
 	}
+	for k, v := range a.Tun {
+		switch k {
+		case "walBlockFlushSize":
+			sutils.WAL_BLOCK_FLUSH_SIZE = int(v)
+		case "maxWalFileSize":
+			sutils.MAX_WAL_FILE_SIZE_BYTES = uint64(v)
+		default:
+			return nil, fmt.Errorf("unknown boot tunable %q", k)
+		}
+	}
 	limit.InitMemoryLimiter()
 	if err := vtable.InitVTable(serverutils.GetMyIds); err != nil {
 		return nil, fmt.Errorf("InitVTable: %v", err)
 	}
 	querytracker.InitQT()
+	if a.RecoverB {
+		// cmd/startup runs the three WAL recoveries on the main goroutine right after launching the ingest server
+		// goroutine (which initialises the writer node), i.e. normally before the new stores exist
+		metrics.RecoverWALData()
+		metrics.RecoverMNameWALData()
+		metrics.RecoverMEntryWALData()
+	}
 	writer.InitWriterNode()
 	if err := query.InitQueryNode(serverutils.GetMyIds, serverutils.ExtractKibanaRequests); err != nil {
 		return nil, fmt.Errorf("InitQueryNode: %v", err)
